@@ -79,7 +79,7 @@ func init() {
 	})
 	cfg := gen.Cfg{ExprDepth: 2, BodyLen: 3, Nest: 2, Calls: true, If: true, For: true, Set: true, SetCap: true, FilterSec: true, Macros: true, Blocks: true}
 	p.Run = func(c *Ctx) {
-		sub.Rapid(c, c.Share(c.Pick(400, 20000)), func(t *rapid.T) *c18Case {
+		sub.Rapid(c, c.Share(c.Pick(400, 13000)), func(t *rapid.T) *c18Case {
 			cs := &c18Case{Env: rapid.SampledFrom([]string{"twig", "twig", "core"}).Draw(t, "env"), Templates: map[string]string{},
 				Procs: rapid.SampledFrom([]int{1, 4, 16}).Draw(t, "procs"), Yield: rapid.IntRange(0, 5).Draw(t, "yield")}
 			exts := []string{".html", ".js", ".css", ".txt", "", ".html.twig", ".xml"}
